@@ -873,7 +873,8 @@ def rule_G(ctx):
         return ts.call('toAbsTime') if isinstance(ts, orders.Obj) else repr(ts)
     N = 5
     FEATS = {'a': [3.0, -1.5, 0.0, NANV, 2.0], 'b': [2.0, 2.0, -4.0, 1.0, 0.0], 'rate': [1.0, 4.0, 9.0, 16.0, 25.0],
-             'p': [1e-20, 2e-20, -1e-20, 5e-20, 1e-20], 'E': [5.0, 6.0, 7.0, 8.0, 9.0], 'w': [4.0, -7.0, 1.0, -7.0, 9.5]}
+             'p': [1e-20, 2e-20, -1e-20, 5e-20, 1e-20], 'E': [5.0, 6.0, 7.0, 8.0, 9.0], 'w': [4.0, -7.0, 1.0, -7.0, 9.5],
+             'n0': [NANV, 2.0, -1.0, 4.0, 0.5], 'nl': [1.0, 3.0, 2.0, 6.0, NANV]}
     VIRT = {'x': [1.0 + k for k in range(N)], 'y': [10.0 - 2.0 * k for k in range(N)], 'z': [0.5 * k * k for k in range(N)],
             't': [100.0 + 3.0 * k for k in range(N)], 'idx': [float(k) for k in range(N)]}
 
@@ -1126,6 +1127,12 @@ def rule_G(ctx):
         run('functions', ('bin', '-', ('bin', '+', ('fun', 'SUM', B), ('fun', agg, RATE)), ('fun', 'SUM', ('bin', '*', B, B))))
     run('functions', ('fun', 'MIN', ('fun', 'D', RATE)))
     run('functions', ('bin', '-', B, ('fun', 'MAX', ('fun', 'D', B))))
+    # every function applied to a vector whose FIRST value is NaN (what a derivative gives) and to one whose LAST value is NaN
+    for f in ('ABS', 'SIGN', 'SQRT', 'EXP', 'D', 'I', 'D2', 'DIODE', 'LOG', 'COS', 'SIN', 'TAN', 'SUM', 'AVG', 'MIN', 'MAX', 'VAR', 'STD', 'MEDIAN', 'MAD', 'MSE', 'RMSE', 'ARGMIN', 'ARGMAX'):
+        run('functions', ('fun', f, ('fun', 'D', RATE)))
+        run('functions', ('fun', f, ('name', 'n0')))
+        run('functions', ('fun', f, ('name', 'nl')))
+    run('functions', ('bin', '-', RATE, ('fun', 'I', ('fun', 'D', RATE))))
     # F4 unary minus
     for e in (('neg', A), ('bin', '+', ('neg', A), B), ('bin', '*', B, ('neg', A)), ('bin', '-', B, ('neg', two)), ('neg', ('bin', '+', A, B)), ('bin', '^', ('neg', RATE), two),
               ('bin', '+', ('neg', RATE), A), ('neg', ('fun', 'ABS', A))):
